@@ -303,6 +303,7 @@ class Case:
     scopes = ()  # sequence lengths for the finite-scope refutation fallback (DESIGN 2.9)
     native = True  # False: the function is not reachable natively (nested function): no replay / cross-check
     ground = None  # optional: callable() -> iterable of primitive dicts: a complete finite domain
+    static = None  # dict(classes=[...], functions=[...], kinds=(...), accepted={site: reason}): static back end
     tier = "quick"  # 'thorough': too expensive for the per-change check; run by the thorough command only
     known_raises = {}  # exception class -> known-finding id: raised on the listed inputs although the property forbids it
     known = {}  # label -> {"id":..., "carve": lambda inp: cond}  known-finding carve-outs
